@@ -709,6 +709,35 @@ example : (build 2 [(([1] : Key), 10), ([1, 2], 20), ([1, 2, 3], 30), ([2], 40)]
     (build 2 [(([1] : Key), 10), ([1, 2], 20), ([1, 2, 3], 30), ([2], 40)]).termBoundsToOrd
       (.incl [9]) .unbounded = (.incl U64_MAX, .unbounded) := by decide
 
+/-- `Dictionary::open ∘ Writer::finish`: from the 20 trailing bytes the reader recovers the data
+region, the index region, the number of terms and the version -/
+theorem C15_open_finish (data index : List UInt8) (numTerms version : Nat)
+    (h1 : data.length < 18446744073709551616) (h2 : numTerms < 18446744073709551616)
+    (h3 : version < 4294967296) :
+    openFile (finishFile data index numTerms version) = ⟨data, index, numTerms, version⟩ :=
+  openFile_finish data index numTerms version h1 h2 h3
+
+/-- a whole file as the model writer lays it out — framed front-coded blocks, end marker, any index
+region, footer — opened and decoded block by block gives back the keys and the term count -/
+theorem C15_whole_file_roundtrip (blockLen : Nat) (ks : List Key) (index : List UInt8)
+    (hs : StrictInc ks) (hsize : ∀ b ∈ encodeBlocks blockLen ks, b.length + 1 < 4294967296)
+    (hdata : (frameBlocks (encodeBlocks blockLen ks)).length < 18446744073709551616)
+    (hn : ks.length < 18446744073709551616) :
+    let f := openFile (finishFile (frameBlocks (encodeBlocks blockLen ks)) index ks.length Gen.SSTABLE_VERSION)
+    f.numTerms = ks.length ∧ f.version = Gen.SSTABLE_VERSION ∧ f.index = index ∧
+    (readBlocks ((encodeBlocks blockLen ks).length + 1) f.data).map
+      (fun bs => ((bs.filterMap isPlain).map decodeBlockKeys).flatten) = some ks := by
+  intro f
+  have hf : f = ⟨frameBlocks (encodeBlocks blockLen ks), index, ks.length, Gen.SSTABLE_VERSION⟩ :=
+    openFile_finish _ _ _ _ hdata hn (by decide)
+  rw [hf]
+  refine ⟨rfl, rfl, rfl, ?_⟩
+  have := C15_file_roundtrip blockLen ks [] hs hsize
+  simpa using this
+
+example : openFile (finishFile [8, 0, 0, 0, 0, 16, 17, 33, 18, 19, 17, 20, 0, 0, 0, 0] [0, 0, 0, 0, 0, 0, 0, 0] 3 3)
+    = ⟨[8, 0, 0, 0, 0, 16, 17, 33, 18, 19, 17, 20, 0, 0, 0, 0], [0, 0, 0, 0, 0, 0, 0, 0], 3, 3⟩ := by decide
+
 /-! ## insertion order (DESIGN §8, F6) -/
 
 /-- the writer accepts a key iff it is greater than the previous one — or both are empty and the
